@@ -91,7 +91,9 @@ def witness_calls():
 
 def reuse_calls(quick):
     out = []
-    tok_inputs = ["SELECT 1", "SELECT 'unterminated", "SELECT /* c */ a -- x\n, b", "SELECT $$x$$"]
+    # (inputs ending in a line break / inside a comment / with a lone CR leave the cursor state of the previous run visible)
+    tok_inputs = ["SELECT 1", "SELECT 'unterminated", "SELECT /* c */ a -- x\n, b", "SELECT $$x$$", "SELECT 1\n", "SELECT 2 -- c\n", "SELECT 3\r",
+                  "\n\nSELECT 'a\nb' /* open"]
     par_inputs = ["SELECT a FROM t", "SELECT FROM", "SELECT a b c d", "SELECT (a", "WITH c AS (SELECT 1) SELECT * FROM c"]
     gen_inputs = ["SELECT a FROM t", "SELECT * FROM UNNEST(x)", "SELECT a FROM UNNEST(x) CROSS JOIN UNNEST(y)", "SELECT CAST(a AS STRUCT<b INT>) FROM t",
                   "SELECT a FROM t QUALIFY ROW_NUMBER() OVER (ORDER BY a) = 1", "SELECT `odd name` FROM t", "SELECT JSON_EXTRACT(a, '$.b') FROM t"]
